@@ -186,6 +186,24 @@ Theorem C14_no_failures_is_the_plain_model :
 Proof. exact run_f_no_failures. Qed.
 Print Assumptions C14_no_failures_is_the_plain_model.
 
+(** THE STORE.  Identifiers are arbitrary strings (the model uses only their equality and byte order).  Along every
+    history, with or without a failing receiver, from any state with distinct identifiers: after every op no identifier
+    is stored twice and the number of stored infos is the initial number plus the accepted additions — no block, committed
+    or aborted, creates or loses an info. *)
+Theorem C14_one_info_per_identifier :
+  forall (g : trigger) (ops : list op) (s : state) (lf : nat),
+    NoDup (ids s) ->
+    Forall (fun x => NoDup (ids (o_infos x))) (snd (run_f g (s, lf) ops)) /\
+    count_P (length s) (combine ops (snd (run_f g (s, lf) ops))).
+Proof. exact store_invariant. Qed.
+Print Assumptions C14_one_info_per_identifier.
+
+Theorem C14_store_checker_sound :
+  (forall o : obs, keys_ok o = true -> b_keys o = ids (b_infos o) /\ NoDup (ids (b_infos o))) /\
+  (forall tr n, count_ok n tr = true -> count_P n (map (fun x => (fst x, to_out (snd x))) tr)).
+Proof. split; [exact keys_ok_sound|exact count_ok_sound]. Qed.
+Print Assumptions C14_store_checker_sound.
+
 (** The boolean checker evaluated on implementation traces is sound for the property … *)
 Theorem C14_checker_sound : forall s tr, Pb_trace s tr = true -> P_trace s tr.
 Proof. intros s tr. exact (Pb_trace_sound tr s). Qed.
